@@ -142,7 +142,7 @@ CHECKS = {
     "C08": dict(
         engine="gen:tsem", level="exploration", quick_cap=280, thorough_cap=3600,
         rule=("Reader schemas = every struct and union of the semantic corpus (keep off). Writer values = the reader's minimal and "
-              "rich value (unions: up to 4 variants) with every single edit: an unknown field of each of 38 payloads (every wire type; empty and zero values at every level; every wire "
+              "rich value (unions: up to 4 variants) with every single edit: an unknown field of each of 43 payloads (every wire type; empty and zero values at every level; maps/lists of structs that contain structs with variable-size fields; every wire "
               "type incl. nested struct, containers of structs/doubles, 300-byte binary) at every position (first/middle/last for "
               "wide structs in quick) with ids below / between / above the declared ones; each field removed; each field retyped "
               "to every other wire type; all field permutations (<=4 fields; reversal and rotation beyond); unknown fields inside "
@@ -227,7 +227,7 @@ CHECKS = {
     "C13": dict(
         engine="gen:tsem", level="exploration", quick_cap=280, thorough_cap=3600,
         rule=("Every struct of the semantic corpus compiled with keep_unknown_fields. Writer values = minimal and rich value plus "
-              "one extra field (38 payloads: every wire type, empty strings/containers/structs and zero scalars at top level and nested, x every position), two extra fields (front/front, front/back, "
+              "one extra field (43 payloads: every wire type, empty strings/containers/structs and zero scalars at top level and nested, maps/lists of structs containing structs with variable-size fields, x every position), two extra fields (front/front, front/back, "
               "back/back), extras inside nested structs, list elements and map values. Decoded with {checked binary, unchecked "
               "binary at a guard page}, re-encoded with both; oracle: the reference decoder recovers every writer field (known "
               "with defaults filled + every unknown, byte-equal values), size() == bytes written, and the known fields equal those "
@@ -236,7 +236,7 @@ CHECKS = {
     ),
     "C19": dict(
         engine="gen:tsem", parts=["gen:tsem", "gen:psem_d0"], level="fault_enumeration", quick_cap=280, thorough_cap=3600,
-        rule=("For a rich and a minimal value of every generated type (keep off/on) x {binary, binary-LE, compact}: every "
+        rule=("For a rich value, a minimal value and the rich value with every string/binary stretched to 40 [300, 5000] bytes, of every generated type (keep off/on) x {binary, binary-LE, compact}: every "
               "truncation [thorough: and every annotated length/count/id/type overwrite (C09 fault values)]; cases whose decode returns Err are "
               "run three times (warm-up + 2 measured) x {sync, async}: live heap bytes after dropping the error and the input must "
               "equal live bytes before on both measured runs (a real leak repeats, lazy statics do not). Protobuf half: the C10 "
